@@ -210,7 +210,8 @@ def run_shard(sh, spec):
             judge(sh, w, db, sid, code, inexact=(fid == "F1"), witness_of=fid)
             w.drop(sid)
     for k in range(spec["count"]):
-        pg = ProgGen(rng, db, pool, tag=f"d{spec['idx']}x{k}", allow_inexact=(rng.random() < 0.06), allow_zero=True)
+        pg = ProgGen(rng, db, pool, tag=f"d{spec['idx']}x{k}", allow_inexact=(rng.random() < 0.06), allow_zero=True,
+                     const_eval_edges=(rng.random() < 0.25))
         stmts = []
         for _ in range(rng.randint(1, 6)):
             try:
